@@ -77,7 +77,7 @@ pub fn run(a: &Args) -> i32 {
     let mut ctx = CaseCtx::new();
     let n = if rep.thorough() { 400 } else { 50 };
     let mut codes: Vec<CaseCode> = Vec::new();
-    let mut compiled_meta: Vec<(usize, String, String, String)> = Vec::new(); // (id, op struct, op name, text)
+    let mut compiled_meta: Vec<(usize, String, String, String, String)> = Vec::new(); // (id, op struct, op name, text, a valid variables assignment)
     let mut extra_files: Vec<(String, String)> = Vec::new();
     let mut derive_expect_err: Vec<(usize, Vec<String>)> = Vec::new();
     for case_i in 0..n {
@@ -202,7 +202,9 @@ pub fn run(a: &Args) -> i32 {
                             let ops: Vec<(String, String)> = mods.iter().map(|m| (m.sexp.items()[8].as_str().unwrap_or("").to_string(), m.mod_name.clone())).collect();
                             for (mi, m) in mods.iter().enumerate() {
                                 let oi = expected.unwrap_or(mi);
-                                compiled_meta.push((id, m.sexp.items()[8].as_str().unwrap_or("").to_string(), doc.ops[oi].name.clone(), text.clone()));
+                                let pg = PayloadGen { s: &schema, doc: &doc, deny_deprecated: false, max_list: 2, depth_budget: 4, absent_percent: 0 };
+                                let assignment = if doc.ops[oi].vars.is_empty() { "null".to_string() } else { pg.variables(&mut rng, &doc.ops[oi]).to_string() };
+                                compiled_meta.push((id, m.sexp.items()[8].as_str().unwrap_or("").to_string(), doc.ops[oi].name.clone(), text.clone(), assignment));
                             }
                             codes.push(CaseCode { id, prelude: prelude_for(&schema, &opts), tokens: tokens.clone(), ops, enums: vec![], no_serialize: doc.has_recursive_fragment() });
                         }
@@ -242,7 +244,9 @@ pub fn run(a: &Args) -> i32 {
                     id = id,
                     good = good
                 );
-                compiled_meta.push((id, good.clone(), good.clone(), text.clone()));
+                let pg = PayloadGen { s: &schema, doc: &doc, deny_deprecated: false, max_list: 2, depth_budget: 4, absent_percent: 0 };
+                let assignment = if doc.ops[0].vars.is_empty() { "null".to_string() } else { pg.variables(&mut rng, &doc.ops[0]).to_string() };
+                compiled_meta.push((id, good.clone(), good.clone(), text.clone(), assignment));
                 codes.push(CaseCode { id, prelude: String::new(), tokens, ops: vec![(good.clone(), heck::ToSnakeCase::to_snake_case(good.as_str()))], enums: vec![], no_serialize: false });
                 // and a struct that names no operation: must not compile, and must say which operations exist
                 let bad_id = codes.len();
@@ -278,7 +282,7 @@ pub fn run(a: &Args) -> i32 {
     // the derive must make cargo watch the QUERY FILE (QUERY stays the verbatim document only if an edit of the
     // file triggers a rebuild): the file has to appear in the dep-info of the compiled crate
     if let Some(dep) = &build.dep_info {
-        for (id, _, op_name, _) in &compiled_meta {
+        for (id, _, op_name, _, _) in &compiled_meta {
             if !build.compiled.contains(id) || !codes[*id].tokens.starts_with("#[derive") {
                 continue;
             }
@@ -296,7 +300,7 @@ pub fn run(a: &Args) -> i32 {
     if let Some(exe) = build.exe.clone() {
         let mut reqs = Vec::new();
         let mut meta = Vec::new();
-        for (id, op_struct, op_name, text) in &compiled_meta {
+        for (id, op_struct, op_name, text, assignment) in &compiled_meta {
             if !build.compiled.contains(id) {
                 let derive = codes[*id].tokens.starts_with("#[derive");
                 rep.fail(if derive { "derive-form-does-not-compile" } else { "library-form-does-not-compile" }, json!({"errors": build.failed.get(id), "operation": op_name, "query": text}));
@@ -304,9 +308,35 @@ pub fn run(a: &Args) -> i32 {
             }
             reqs.push((*id, "consts".to_string(), op_struct.clone(), "null".to_string()));
             meta.push((op_name.clone(), text.clone(), "consts"));
+            // what `build_query(variables)` itself returns: the three members, `query` the document, `operationName` the name
+            reqs.push((*id, "vars".to_string(), op_struct.clone(), assignment.clone()));
+            meta.push((op_name.clone(), text.clone(), "body"));
         }
         let replies = run_consumer(&exe, &reqs);
-        for ((op_name, text, _), raw) in meta.iter().zip(replies.iter()) {
+        for ((op_name, text, what), raw) in meta.iter().zip(replies.iter()) {
+            if *what == "body" {
+                rep.case(Some(&format!("compiled-body|{}|{}", op_name, text.len())));
+                rep.count("compiled:build_query-body");
+                match parse_reply(raw) {
+                    Reply::Ok(body) => {
+                        let mut keys: Vec<String> = body.as_object().map(|m| m.keys().cloned().collect()).unwrap_or_default();
+                        keys.sort();
+                        if keys != ["operationName", "query", "variables"] {
+                            rep.fail("request-body-members", json!({"operation": op_name, "members": keys}));
+                        }
+                        if body["operationName"] != json!(op_name) {
+                            rep.fail("operation-name-in-body", json!({"expected": op_name, "got": body["operationName"]}));
+                        }
+                        if body["query"] != json!(text) {
+                            rep.fail("query-in-body-not-verbatim", json!({"operation": op_name, "expected_len": text.len(), "got": body["query"]}));
+                        }
+                    }
+                    // (whether the assignment is expressible is C04's question)
+                    Reply::Err(_) => rep.count("compiled:build_query-body:assignment-refused"),
+                    Reply::Other(o) => rep.internal.push(format!("body reply: {}", o)),
+                }
+                continue;
+            }
             rep.case(Some(&format!("compiled-consts|{}|{}", op_name, text.len())));
             rep.count("compiled:consts");
             match parse_reply(raw) {
